@@ -362,6 +362,37 @@ def run(ctx):
         for key, note in out["problems"]:
             ctx.failure("sg:" + key, dict(sg_model=out["lib"], options=out["options"]), expected="compiles", observed=note,
                         note="long-signature library %s: %s" % (out["options"], note))
+    # documented shapes that a few dozen drawn libraries do not always contain (each once per run, with and without
+    # an option set): helpers needed only inside a namespace (no library-level user of the same helper);
+    # struct.rst's forward-declared class pair with the Python and Lua wrappers on
+    shapes = []
+    for what, decl in (("string", "const std::string getName()"), ("vector", "std::vector<int> getValues()"),
+                       ("alloc", "int *getTable(int *n +intent(out)+hidden) +dimension(n)+deref(allocatable)"),
+                       ("charout", "void getLabel(char *s +intent(out)+charlen(20))")):
+        fname = decl.split("(")[0].split()[-1].lstrip("*")
+        proto = re.sub(r"\s*\+\w+(\((?:[^()]|\([^()]*\))*\))?", "", decl)
+        shapes.append(dict(library="NsHelper", language="c++", options={"wrap_python": False, "wrap_lua": False}, format={}, decls=[
+            dict(kind="raw", yaml={"decl": "int plain(int a)"}),
+            dict(kind="raw", yaml={"decl": "namespace inner", "declarations": [{"decl": decl}, {"decl": "double scale(double x)"}]})],
+            raw_header="int plain(int a);\nnamespace inner { %s; double scale(double x); }\n" % proto, shape="ns-helper:" + what))
+    for how1, how2 in (("const Node1 &arg", "const Edge1 &arg"), ("Node1 *arg +intent(in)", "Edge1 *arg +intent(in)")):
+        h1, h2 = how1.split(" +")[0], how2.split(" +")[0]
+        shapes.append(dict(library="PairOk", language="c++", options={"wrap_python": True, "wrap_lua": False}, format={}, decls=[
+            dict(kind="raw", yaml={"decl": "class Node1"}),
+            dict(kind="raw", yaml={"decl": "class Edge1", "declarations": [{"decl": "Edge1()"}, {"decl": "void acceptNode(%s)" % how1}, {"decl": "int degree()"}]}),
+            dict(kind="raw", yaml={"decl": "class Node1", "declarations": [{"decl": "Node1()"}, {"decl": "void acceptEdge(%s)" % how2}, {"decl": "int rank()"}]})],
+            raw_header="class Node1;\nclass Edge1 { public: Edge1(); void acceptNode(%s); int degree(); };\n"
+                       "class Node1 { public: Node1(); void acceptEdge(%s); int rank(); };\n" % (h1, h2), shape="class-pair:" + how1.split()[-2]))
+    sjobs = []
+    for m_ in shapes:
+        # (std::vector together with F_CFI is the recorded finding probed below)
+        for cfg in ({}, {"debug": True, "F_CFI": True} if m_["library"] == "NsHelper" and "vector" not in m_["shape"] else {"debug": True}):
+            sjobs.append((len(sjobs), m_, dict(cfg)))
+    for out in core.pool_map(_sg_job, sjobs):
+        ctx.case(label=["family:documented-shape"], nontrivial=("shape", out["lib"]["shape"], repr(sorted(out["options"].items()))))
+        for key, note in out["problems"]:
+            ctx.failure("sg:" + key, dict(sg_model=out["lib"], options=out["options"]), expected="compiles and links", observed=note,
+                        note="documented shape %s %s: %s" % (out["lib"]["shape"], out["options"], note))
     # probe of the recorded finding
     vm = dict(library="VecLib", language="c++", options={"wrap_python": False, "wrap_lua": False}, format={}, decls=[
         dict(kind="func", name="vsum", rtype="int", rattrs="", rrow="RN", rT="int", const=False, static=False, options={}, format={}, extra={},
